@@ -99,9 +99,30 @@ Proof.
 Qed.
 
 (* one step of any query preserves the invariant *)
-Lemma step_inv : forall sets st i, inv sets st -> inv sets (step proto_fixed sets st i).
+(* a query that ends without a result (failed binding, dropped future) leaves
+   the invariant intact: the binding is untouched and its lock is released *)
+Lemma abort_inv : forall sets st i, inv sets st -> inv sets (abort proto_fixed st i).
 Proof.
-  intros sets st i [Htp Hall]. unfold step.
+  intros sets st i [Htp Hall]. unfold abort.
+  destruct (aget N.eqb i (qs st)) as [q|] eqn:Hq; [|split; assumption].
+  pose proof (Hall i q Hq) as [Hlk [Htb [Hcap Hres]]].
+  split; [exact Htp|]. intros j qj Hj. cbn [set_q qs] in Hj.
+  destruct (N.eq_dec j i) as [->|Hne].
+  - rewrite aget_aset_eq in Hj. injection Hj as <-.
+    unfold qinv. cbn [q_pc q_cap q_res set_q lock tbl proto_fixed length].
+    split; [intros Hr; lia|]. split; [intros Hr; lia|]. split; [exact Hcap | exact Hres].
+  - rewrite aget_aset_neq in Hj by exact Hne.
+    destruct (Hall j qj Hj) as [Hl' [Ht' [Hc' Hr']]].
+    unfold qinv. cbn [set_q lock tbl].
+    split.
+    + intros Hr. specialize (Hl' Hr). rewrite Hl'.
+      destruct (N.eqb j i) eqn:E; [apply N.eqb_eq in E; congruence | reflexivity].
+    + split; [exact Ht'|]. split; [exact Hc' | exact Hr'].
+Qed.
+
+Lemma step_inv : forall faults sets st i, inv sets st -> inv sets (step faults proto_fixed sets st i).
+Proof.
+  intros faults sets st i Hinv. pose proof Hinv as [Htp Hall]. unfold step.
   destruct (aget N.eqb i (qs st)) as [q|] eqn:Hq; [|split; assumption].
   destruct (nth_error proto_fixed (q_pc q)) as [k|] eqn:Hk; [|split; assumption].
   pose proof (Hall i q Hq) as [Hlk [Htb [Hcap Hres]]].
@@ -116,6 +137,7 @@ Proof.
     + rewrite aget_aset_neq in Hj by exact Hne.
       apply (qinv_not_holder sets st); [rewrite Hl; discriminate | exact (Hall j qj Hj)].
   - (* Register *)
+    destruct (memN i faults && reads_files (sel sets i) st); [apply abort_inv; exact Hinv|].
     destruct (register_tbl (sel sets i) st Htp) as [Rt [Rp [Rl Rq]]].
     assert (Hmine : lock st = Some i) by (apply Hlk; lia).
     split; [cbn [set_q tbl paths]; congruence|].
@@ -169,6 +191,33 @@ Proof.
   - apply IH. apply step_inv. exact Hinv.
 Qed.
 
+Lemma run_ev_inv : forall faults sets evs st, inv sets st -> inv sets (run_ev faults proto_fixed sets evs st).
+Proof.
+  intros faults sets evs. unfold run_ev. induction evs as [|e r IH]; intros st Hinv; cbn [fold_left].
+  - exact Hinv.
+  - apply IH. destruct e as [i|i]; cbn [apply_ev]; [apply step_inv | apply abort_inv]; exact Hinv.
+Qed.
+
+(* Histories with failed bindings and dropped futures: any set of failing
+   queries, any interleaving of steps and drops, from any previously bound table. *)
+Theorem result_own_faulty : forall faults sets t ids evs i c,
+  result (run_ev faults proto_fixed sets evs (init_bound t ids)) i = Some c -> c = sel sets i.
+Proof.
+  intros faults sets t ids evs i c H.
+  destruct (run_ev_inv faults sets evs (init_bound t ids) (inv_init_bound sets t ids)) as [_ Hall].
+  unfold result in H.
+  destruct (aget N.eqb i (qs (run_ev faults proto_fixed sets evs (init_bound t ids)))) as [q|] eqn:Hq; [|discriminate].
+  destruct (Hall i q Hq) as [_ [_ [_ Hr]]]. apply Hr. exact H.
+Qed.
+
+(* the bookkeeping of bound paths never disagrees with the bound table *)
+Theorem paths_match_table : forall faults sets t ids evs,
+  tbl (run_ev faults proto_fixed sets evs (init_bound t ids)) = paths (run_ev faults proto_fixed sets evs (init_bound t ids)).
+Proof.
+  intros faults sets t ids evs.
+  destruct (run_ev_inv faults sets evs (init_bound t ids) (inv_init_bound sets t ids)) as [H _]. exact H.
+Qed.
+
 (* Main theorem: any number of queries, any chunk sets, any schedule. *)
 Theorem captured_own : forall sets ids sched i c,
   captured (run proto_fixed sets sched (init ids)) i = Some c -> c = sel sets i.
@@ -217,58 +266,60 @@ Qed.
 Definition alone (i : qid) : list qid := [i; i; i; i; i; i].
 
 (* ---------- the command level used by the harness is made of the same steps ---------- *)
-Lemma advance_inv : forall sets fuel st i, inv sets st -> inv sets (advance proto_fixed sets fuel st i).
+Lemma advance_inv : forall faults sets fuel st i, inv sets st -> inv sets (advance faults proto_fixed sets fuel st i).
 Proof.
-  intros sets fuel. induction fuel as [|f IH]; intros st i Hinv; cbn [advance]; [exact Hinv|].
+  intros faults sets fuel. induction fuel as [|f IH]; intros st i Hinv; cbn [advance]; [exact Hinv|].
   destruct (at_pause proto_fixed st i || done proto_fixed st i); [exact Hinv|].
   destruct (Nat.eqb _ _); [apply step_inv; exact Hinv | apply IH; apply step_inv; exact Hinv].
 Qed.
 
-Lemma fold_step_inv : forall sets (A : Type) (l : list A) st i,
-  inv sets st -> inv sets (fold_left (fun s _ => step proto_fixed sets s i) l st).
+Lemma fold_step_inv : forall faults sets (A : Type) (l : list A) st i,
+  inv sets st -> inv sets (fold_left (fun s _ => step faults proto_fixed sets s i) l st).
 Proof.
-  intros sets A l. induction l as [|x r IH]; intros st i Hinv; cbn [fold_left]; [exact Hinv|].
+  intros faults sets A l. induction l as [|x r IH]; intros st i Hinv; cbn [fold_left]; [exact Hinv|].
   apply IH. apply step_inv. exact Hinv.
 Qed.
 
-Lemma finish_inv : forall sets st i, inv sets st -> inv sets (finish proto_fixed sets st i).
+Lemma finish_inv : forall faults sets st i, inv sets st -> inv sets (finish faults proto_fixed sets st i).
 Proof.
-  intros sets st i Hinv. unfold finish. destruct (at_pause proto_fixed st i); [|exact Hinv].
+  intros faults sets st i Hinv. unfold finish. destruct (at_pause proto_fixed st i); [|exact Hinv].
   apply fold_step_inv. apply step_inv. exact Hinv.
 Qed.
 
-Lemma fold_advance_inv : forall sets l st,
-  inv sets st -> inv sets (fold_left (fun s j => advance proto_fixed sets (length proto_fixed) s j) l st).
+Lemma settle_inv : forall faults sets l st,
+  inv sets st -> inv sets (settle faults proto_fixed sets l st).
 Proof.
-  intros sets l. induction l as [|j r IH]; intros st Hinv; cbn [fold_left]; [exact Hinv|].
+  intros faults sets l. unfold settle. induction l as [|j r IH]; intros st Hinv; cbn [fold_left]; [exact Hinv|].
   apply IH. apply advance_inv. exact Hinv.
 Qed.
 
-Lemma run_cmds_inv : forall sets cs started st, inv sets st -> inv sets (run_cmds proto_fixed sets cs started st).
+Lemma run_cmds_inv : forall faults sets cs started st,
+  inv sets st -> inv sets (run_cmds faults proto_fixed sets cs started st).
 Proof.
-  intros sets cs. induction cs as [|c r IH]; intros started st Hinv; cbn [run_cmds]; [exact Hinv|].
-  destruct c as [i|i]; cbn [run_cmd]; apply IH.
-  - apply advance_inv. exact Hinv.
-  - apply fold_advance_inv. apply finish_inv. exact Hinv.
+  intros faults sets cs. induction cs as [|c r IH]; intros started st Hinv; cbn [run_cmds]; [exact Hinv|].
+  destruct c as [i|i|i]; cbn [run_cmd]; apply IH; apply settle_inv.
+  - exact Hinv.
+  - apply finish_inv. exact Hinv.
+  - apply abort_inv. exact Hinv.
 Qed.
 
 Theorem cmds_result_own : forall sets ids cs i c,
-  result (run_cmds proto_fixed sets cs [] (init ids)) i = Some c -> c = sel sets i.
+  result (run_cmds [] proto_fixed sets cs [] (init ids)) i = Some c -> c = sel sets i.
 Proof.
   intros sets ids cs i c H.
-  destruct (run_cmds_inv sets cs [] (init ids) (inv_init sets ids)) as [_ Hall].
+  destruct (run_cmds_inv [] sets cs [] (init ids) (inv_init sets ids)) as [_ Hall].
   unfold result in H.
-  destruct (aget N.eqb i (qs (run_cmds proto_fixed sets cs [] (init ids)))) as [q|] eqn:Hq; [|discriminate].
+  destruct (aget N.eqb i (qs (run_cmds [] proto_fixed sets cs [] (init ids)))) as [q|] eqn:Hq; [|discriminate].
   destruct (Hall i q Hq) as [_ [_ [_ Hr]]]. apply Hr. exact H.
 Qed.
 
-Theorem cmds_result_own_bound : forall sets t ids cs i c,
-  result (run_cmds proto_fixed sets cs [] (init_bound t ids)) i = Some c -> c = sel sets i.
+Theorem cmds_result_own_bound : forall faults sets t ids cs i c,
+  result (run_cmds faults proto_fixed sets cs [] (init_bound t ids)) i = Some c -> c = sel sets i.
 Proof.
-  intros sets t ids cs i c H.
-  destruct (run_cmds_inv sets cs [] (init_bound t ids) (inv_init_bound sets t ids)) as [_ Hall].
+  intros faults sets t ids cs i c H.
+  destruct (run_cmds_inv faults sets cs [] (init_bound t ids) (inv_init_bound sets t ids)) as [_ Hall].
   unfold result in H.
-  destruct (aget N.eqb i (qs (run_cmds proto_fixed sets cs [] (init_bound t ids)))) as [q|] eqn:Hq; [|discriminate].
+  destruct (aget N.eqb i (qs (run_cmds faults proto_fixed sets cs [] (init_bound t ids)))) as [q|] eqn:Hq; [|discriminate].
   destruct (Hall i q Hq) as [_ [_ [_ Hr]]]. apply Hr. exact H.
 Qed.
 
@@ -292,9 +343,9 @@ Proof. split; timeout 20 vm_compute; reflexivity. Qed.
 
 (* the harness's command sequence Start A, Start B, Resume A, Resume B *)
 Example cmds_witness :
-  result (run_cmds proto_unlocked_plan w_sets [Start 1%N; Start 2%N; Resume 1%N; Resume 2%N] [] (init [1%N; 2%N])) 1%N = Some [2%N; 3%N] /\
-  result (run_cmds proto_fixed w_sets [Start 1%N; Start 2%N; Resume 1%N; Resume 2%N] [] (init [1%N; 2%N])) 1%N = Some [1%N; 2%N] /\
-  result (run_cmds proto_fixed w_sets [Start 1%N; Start 2%N; Resume 1%N; Resume 2%N] [] (init [1%N; 2%N])) 2%N = Some [2%N; 3%N].
+  result (run_cmds [] proto_unlocked_plan w_sets [Start 1%N; Start 2%N; Resume 1%N; Resume 2%N] [] (init [1%N; 2%N])) 1%N = Some [2%N; 3%N] /\
+  result (run_cmds [] proto_fixed w_sets [Start 1%N; Start 2%N; Resume 1%N; Resume 2%N] [] (init [1%N; 2%N])) 1%N = Some [1%N; 2%N] /\
+  result (run_cmds [] proto_fixed w_sets [Start 1%N; Start 2%N; Resume 1%N; Resume 2%N] [] (init [1%N; 2%N])) 2%N = Some [2%N; 3%N].
 Proof. repeat split; timeout 20 vm_compute; reflexivity. Qed.
 
 (* non-vacuity: a query alone completes and scans its own set *)
@@ -302,3 +353,21 @@ Example solo_completes :
   result (run proto_fixed w_sets (alone 1%N) (init [1%N])) 1%N = Some [1%N; 2%N] /\
   result (run proto_fixed w_sets (alone 2%N) (init [2%N])) 2%N = Some [2%N; 3%N].
 Proof. split; timeout 20 vm_compute; reflexivity. Qed.
+
+(* a failed binding followed by a retry of the same query: A binds {1}, B (id 2)
+   fails while binding {2}, the retry B' (id 3, same set) is evaluated against
+   {2} -- it does not take the "already registered" shortcut on stale
+   bookkeeping, because the bookkeeping was not touched by the failure *)
+Example retry_after_failed_binding :
+  let sets := [(1%N, [1%N]); (2%N, [2%N]); (3%N, [2%N])] in
+  let st := run_cmds [2%N] proto_fixed sets
+              [Start 1%N; Resume 1%N; Start 2%N; Resume 2%N; Start 3%N; Resume 3%N] [] (init_bound [1%N; 2%N] [1%N; 2%N; 3%N]) in
+  result st 1%N = Some [1%N] /\ result st 2%N = None /\ result st 3%N = Some [2%N] /\ tbl st = paths st.
+Proof. repeat split; timeout 20 vm_compute; reflexivity. Qed.
+
+(* a query dropped at the pause point releases the lock; the next one proceeds *)
+Example dropped_at_pause :
+  let sets := [(1%N, [1%N]); (2%N, [2%N])] in
+  let st := run_cmds [] proto_fixed sets [Start 1%N; Start 2%N; Cancel 1%N; Resume 2%N] [] (init [1%N; 2%N]) in
+  result st 1%N = None /\ result st 2%N = Some [2%N].
+Proof. repeat split; timeout 20 vm_compute; reflexivity. Qed.
